@@ -342,6 +342,37 @@ func runC07(x *X) {
 		c07Run(x, c, t, tags)
 	})
 
+	// wide tables: 10-13 columns
+	x.Explore("wide", ExploreOpts{ShardDepth: 2, Bound: "12 headers x rows of 9/12/3/0 cells and separators x skipable set on each column in turn (or on column 0)"}, func(c *Chooser) {
+		t := &c07Table{hasHeader: true, skip: map[int]interface{}{}}
+		for i := 1; i <= 12; i++ {
+			t.header = append(t.header, fmt.Sprintf("k%d", i))
+		}
+		mk := func(n int, empty int) []c07Cell {
+			r := make([]c07Cell, n)
+			for i := range r {
+				r[i] = c07Cell{fmt.Sprintf("v%d", i+1), "str"}
+				if i == empty {
+					r[i] = c07Cell{"", `""`}
+				}
+			}
+			return r
+		}
+		col := c.Choose(14) // 0 none, 1..12 that column, 13 column 0
+		e := col - 1
+		t.rows = [][]c07Cell{mk(9, e), nil, mk(12, e), mk(3, e), {}, nil}
+		if col >= 1 && col <= 12 {
+			t.skip[col] = true
+		} else if col == 13 {
+			t.skip[0] = true
+			t.rows[2][10] = c07Cell{nil, "nil"}
+		}
+		t.desc = fmt.Sprintf("12 headers, rows of 9,sep,12,3,0,sep cells; skipable on %d", col)
+		x.Transition(1)
+		x.Nontrivial(t.desc)
+		c07Run(x, c, t, []string{"ten_or_more_columns"})
+	})
+
 	// (b) skipable
 	skipVals := []struct {
 		name string
